@@ -902,6 +902,33 @@ func (g *gen) stmt(d int) []*N {
 			g.scopes[len(g.scopes)-1] = append(g.scopes[len(g.scopes)-1], gvar{name: name, ty: "func", cnst: true, arity: 1, req: 1})
 			return []*N{n("expr", ns("func", name, n("params", ns("param", p)), body))}
 		}
+		if g.o.Shadow && g.r.Chance(30) {
+			// a closure that first uses a captured variable, then declares a block-scoped variable of
+			// the same name, and reads it from a block nested inside the shadowing block
+			mk, pv, q, acc, fn, res := g.fresh("mk"), g.fresh("p"), g.fresh("p"), g.fresh("w"), g.fresh("g"), g.fresh("v")
+			shadowBlock := nBlock(
+				nVar(pv, nInfix("*", nId(q), nInt(int64(2+g.r.Intn(5))))),
+				n("expr", n("if", nInfix(">", nId(q), nInt(1)), nBlock(nAssign(acc, "+=", nId(pv))))),
+				nAssign(acc, "+=", nId(pv)))
+			var loop *N
+			if g.r.Bool() {
+				loop = n("expr", n("if", nInfix(">", nId(q), nInt(0)), shadowBlock))
+			} else {
+				it := g.fresh("e")
+				loop = ns("forin", pv, n("list", nId(q), nInfix("+", nId(q), nInt(1))),
+					nBlock(n("expr", n("if", nInfix(">", nId(q), nInt(0)), nBlock(nAssign(acc, "+=", nId(pv)))))))
+				_ = it
+			}
+			inner := ns("func", "", n("params", ns("param", q)), nBlock(
+				nVar(acc, nInfix("+", nId(pv), nId(q))),
+				loop,
+				n("return", n("list", nId(acc), nId(pv)))))
+			outer := ns("func", mk, n("params", ns("param", pv)), nBlock(n("return", inner)))
+			a1 := g.intExpr(0)
+			g.scopes[len(g.scopes)-1] = append(g.scopes[len(g.scopes)-1], gvar{name: mk, ty: "mk", cnst: true},
+				gvar{name: fn, ty: "mk", cnst: true}, gvar{name: res, ty: "list"})
+			return []*N{n("expr", outer), nVar(fn, nCall(nId(mk), a1)), nVar(res, nInfix("+", nCall(nId(fn), nInt(int64(g.r.Intn(4)))), nCall(nId(fn), nInt(2))))}
+		}
 		if g.r.Chance(40) {
 			// a factory with more than 8 locals whose closure captures several of them, called
 			// twice back to back; both closures are used afterwards
